@@ -5,7 +5,7 @@
    This file only restates the property theorems; proofs are in frame/*Proofs.v. *)
 From Coq Require Import List NArith ZArith Bool.
 From JV Require Import Bytes FrameBase FrameBaseProofs FrameSpec Split SplitProofs Hdr HdrProofs
-  JsonScan JsonScanProofs RawJson RawJsonProofs Direct DirectProofs DirectMore FrameMore Chunked ChunkedProofs.
+  JsonScan JsonScanProofs RawJson RawJsonProofs Direct DirectProofs DirectMore FrameMore Chunked ChunkedProofs ChunkedHdr ChunkedHdrProofs.
 Import ListNotations.
 Local Open Scope N_scope.
 
@@ -146,3 +146,19 @@ Theorem c11_split_chunked_round_trip : forall eager b rs chunks,
   crecv_all cfg_fixed eager b chunks = map IRec rs ++ [IErr EEOF].
 Proof. exact split_chunked_round_trip. Qed.
 Print Assumptions c11_split_chunked_round_trip.
+
+(* header framings: ReadString, io.ReadFull and io.CopyN on the chunked reader (ChunkedHdr.v);
+   [req] is the request-size schedule of the CopyN path (bytes.Buffer's growth policy): any *)
+Theorem c11_hdr_chunked : forall c eager req p want st chunks,
+  Forall nonempty chunks ->
+  chdr_recv_all c eager req p want st chunks = Hdr.recv_all c p want st (concat chunks).
+Proof. exact hdr_chunked_recv_all. Qed.
+Print Assumptions c11_hdr_chunked.
+
+Theorem c11_hdr_chunked_round_trip : forall eager req p mt rs st chunks,
+  usable_mime mt = true -> st <= buf_bound ->
+  Forall (fun r => (Z.of_nat (length r) <= max_int)%Z) rs ->
+  Forall nonempty chunks -> concat chunks = concat (map (HdrProofs.enc mt) rs) ->
+  chdr_recv_all cfg_fixed eager req p mt st chunks = map IRec rs ++ [IErr EEOF].
+Proof. exact hdr_chunked_round_trip. Qed.
+Print Assumptions c11_hdr_chunked_round_trip.
